@@ -327,7 +327,13 @@ func (p *Program) lifecycle() *lifecycle {
 									}
 								}
 							}
-							if pausing {
+							fromRecover := false
+							if rc, ok := strip(c.Args[1]).(*ssa.Call); ok {
+								if bi, ok := rc.Call.Value.(*ssa.Builtin); ok && bi.Name() == "recover" {
+									fromRecover = true
+								}
+							}
+							if pausing || fromRecover {
 								lc.Failed = cal
 							}
 						}
